@@ -151,7 +151,7 @@ theorem C13_saturation {S T : Type} [DecidableEq S] [DecidableEq T] (B : Builder
   saturationTable_spec B prims request stackKey fuel G h
 
 /-- the model's grammar derives only what the rule creation derives -/
-theorem model_sound {S T : Type} [DecidableEq S] [DecidableEq T] (B : Builder S T) (dsl : Dsl) (request : Ty)
+theorem C13_model_sound {S T : Type} [DecidableEq S] [DecidableEq T] (B : Builder S T) (dsl : Dsl) (request : Ty)
     (stackKey : Bool) (fuel : Nat) (G0 G : TT S T) (h0 : saturationTable B dsl.prims request stackKey fuel = some G0)
     (h1 : clean G0 fuel = .ok G) (t : Prog) (hin : inLang G t = true) :
     (run (idealFn B dsl request) t (request.returns, B.init.1) B.init.2).isSome = true := by
@@ -184,7 +184,7 @@ theorem C13_size_sound_partial (dsl : Dsl) (hwf : wfDsl dsl = true) (request : T
       simp only [h1, Res.ok.injEq] at h
       subst h
       rw [C13_contains_run] at hin
-      have := model_sound (sizeBuilder dsl nG k actual) dsl request stackKey fuel G0 G h0 h1 t hin
+      have := C13_model_sound (sizeBuilder dsl nG k actual) dsl request stackKey fuel G0 G h0 h1 t hin
       rw [← size_ideal_lang dsl hwf request nG k actual hyp t]
       exact this
     | fuel => simp [h1] at h
@@ -204,7 +204,7 @@ theorem C13_atmost_sound (dsl : Dsl) (hwf : wfDsl dsl = true) (request : Ty) (na
       simp only [h1, Res.ok.injEq] at h
       subst h
       rw [C13_contains_run] at hin
-      have := model_sound (atMostBuilder dsl nG name k) dsl request stackKey fuel G0 G h0 h1 t hin
+      have := C13_model_sound (atMostBuilder dsl nG name k) dsl request stackKey fuel G0 G h0 h1 t hin
       rw [← atMost_ideal_lang dsl hwf request nG name k t]
       exact this
     | fuel => simp [h1] at h
